@@ -224,9 +224,20 @@ func (i *interpreter) initPackage(pkg *ssa.Package) {
 	}
 	if init := pkg.Func("init"); init != nil && init.Blocks != nil {
 		i.inInit++
-		saved := i.cur
-		_ = saved
-		call(i, nil, token.NoPos, init, nil)
+		depth := i.callDepth
+		func() {
+			defer func() {
+				if p := recover(); p != nil {
+					if _, isTP := p.(targetPanic); isTP {
+						// permissive initialisation: see callSSA
+						i.callDepth = depth
+						return
+					}
+					panic(p)
+				}
+			}()
+			call(i, nil, token.NoPos, init, nil)
+		}()
 		i.inInit--
 	}
 	i.pkgInit[pkg] = 2
@@ -671,6 +682,14 @@ func callSSA(i *interpreter, caller *frame, callpos token.Pos, fn *ssa.Function,
 				}
 				p := recover()
 				if pa, isPA := p.(pathAbort); isPA && (pa.kind == abortUnsupported || pa.kind == abortInternal) {
+					i.callDepth = depth
+					fr.result = zeroResult(fn.Signature)
+					fr.block = nil
+					return
+				}
+				if _, isTP := p.(targetPanic); isTP {
+					// a panic that follows from an earlier unsupported operation of the
+					// initialiser (e.g. a method call on the zero value it returned)
 					i.callDepth = depth
 					fr.result = zeroResult(fn.Signature)
 					fr.block = nil
